@@ -9,7 +9,7 @@ R-WHITELIST    detect / detect_any iterate all colliders, filter candidates only
 """
 import ast
 
-from ..core.astutil import u, call_name, calls, iter_stmts, const, ncmp, parent_map, guard_chain
+from ..core.astutil import u, call_name, calls, iter_stmts, const, ncmp, parent_map, guard_chain, resolved
 from ..core.index import AnalysisError
 
 BP = "distance3d.broad_phase"
@@ -25,7 +25,12 @@ def r_updateorder(idx, rep, rule="R-UPDATEORDER"):
         raise AnalysisError("update_collider_poses vanished")
     fk = f.key
     body = f.node.body
-    fresh = [st for st in body if isinstance(st, ast.Assign) and u(st.targets[0]) == "self.aabbtree_" and isinstance(st.value, ast.Call) and call_name(st.value) == "AabbTree"]
+    # the fresh tree may be bound to a local first (tree = AabbTree(); self.aabbtree_ = tree)
+    tree_names = {"self.aabbtree_"}
+    for st in body:
+        if isinstance(st, ast.Assign) and u(st.targets[0]) == "self.aabbtree_" and isinstance(st.value, ast.Name):
+            tree_names.add(st.value.id)
+    fresh = [st for st in body if isinstance(st, ast.Assign) and u(st.targets[0]) in tree_names and isinstance(st.value, ast.Call) and call_name(st.value) == "AabbTree"]
     loops = [st for st in body if isinstance(st, ast.For)]
     rep.check(len(fresh) == 1 and len(loops) == 1 and fresh[0].lineno < loops[0].lineno, rule, fk + "|fresh tree", f.where,
               "the tree must be rebuilt from scratch (self.aabbtree_ = AabbTree()) before the colliders are re-inserted; stale boxes would stay in the tree")
@@ -48,12 +53,11 @@ def r_updateorder(idx, rep, rule="R-UPDATEORDER"):
     ups = [c for c in calls(lp.body, "update_pose")]
     abs_ = [c for c in calls(lp.body, "aabb")]
     ins = [c for c in calls(lp.body, "insert_aabb")]
-    posevar = None
-    for st in iter_stmts(lp.body):
-        if isinstance(st, ast.Assign) and isinstance(st.value, ast.Call) and call_name(st.value).endswith("get_transform"):
-            posevar = u(st.targets[0])
+    # the pose handed to update_pose is the looked-up transform, named or not
+    pose_ok = len(ups) == 1 and len(ups[0].args) == 1 and isinstance(resolved(f.node, ups[0].args[0]), ast.Call) \
+        and (call_name(resolved(f.node, ups[0].args[0])) or "").endswith("get_transform")
     ok = len(ups) == 1 and len(abs_) == 1 and len(ins) == 1 and (ups[0].lineno, ups[0].col_offset) < (abs_[0].lineno, abs_[0].col_offset) \
-        and [u(a) for a in ups[0].args] == [posevar] and u(ups[0].func.value) == u(abs_[0].func.value)
+        and pose_ok and u(ups[0].func.value) == u(abs_[0].func.value)
     rep.check(ok, rule, fk + "|update_pose before aabb()", f.where,
               "each collider must get update_pose(<new pose>) BEFORE its aabb() is inserted (otherwise the tree holds the boxes of the previous configuration)")
     # ... on EVERY iteration: update_pose and the insertion are plain statements of the loop body (a 'did it move?' guard around
@@ -81,7 +85,7 @@ def r_updateorder(idx, rep, rule="R-UPDATEORDER"):
 
 def r_payload(idx, rep, rule="R-PAYLOAD"):
     rep.rule(rule, "tree payload is read as written: dict over (frame, collider) pairs for box queries; pair[0] -> this tree, "
-                   "pair[1] -> other tree; self-pairs skipped only for equal indices", floor=5)
+                   "pair[1] -> other tree; self-pairs skipped only for equal indices", floor=3, unknown_ceiling=2)
     ci = idx.cls(BP + "::BoundingVolumeHierarchy")
     f = ci.methods.get("aabb_overlapping_colliders")
     if f is None:
@@ -94,12 +98,17 @@ def r_payload(idx, rep, rule="R-PAYLOAD"):
         if isinstance(st, ast.Assign) and isinstance(st.value, ast.Call) and call_name(st.value).endswith("overlaps_aabb") and isinstance(st.targets[0], ast.Tuple):
             src = u(st.targets[0].elts[1])
     dicts = [c for c in calls(f.node, "dict")]
-    ok = ok and len(dicts) == 1 and "self.aabbtree_.external_data_list" in u(dicts[0]) and src is not None and ("[%s" % src) in u(dicts[0]).replace(" ", "")
+    import copy as _copy
+
+    class _Res(ast.NodeTransformer):
+        def visit_Name(self, n):
+            r = resolved(f.node, n) if isinstance(n.ctx, ast.Load) else n
+            return _copy.deepcopy(r) if (r is not n and isinstance(r, (ast.Attribute, ast.Subscript))) else n
+    dtxt = u(_Res().visit(_copy.deepcopy(dicts[0]))) if len(dicts) == 1 else ""
+    ok = ok and len(dicts) == 1 and "self.aabbtree_.external_data_list" in dtxt and src is not None and src in {n.id for n in ast.walk(dicts[0]) if isinstance(n, ast.Name)}
     rep.check(ok, rule, f.key + "|dict(external_data_list[overlaps])", f.where,
               "box query results must index self.aabbtree_.external_data_list with the overlap indices and be read as (frame, collider) pairs")
-    qa = u(q[0].args[0]) if q else ""
-    aab = [st for st in iter_stmts(f.node.body) if isinstance(st, ast.Assign) and u(st.targets[0]) == qa]
-    ok = bool(aab) and u(aab[0].value) == "%s.aabb()" % ps[0]
+    ok = bool(q) and u(resolved(f.node, q[0].args[0])) == "%s.aabb()" % ps[0]
     rep.check(ok, rule, f.key + "|query box = collider.aabb()", f.where, "the query box must be the query collider's own aabb()")
     # whitelist removal only
     pops = [c for c in calls(f.node, "pop")]
@@ -112,6 +121,9 @@ def r_payload(idx, rep, rule="R-PAYLOAD"):
             raise AnalysisError("%s vanished" % name)
         oparam = ([p for p in g.params() if p != "self"] or ["self"])[0]
         q = calls(g.node, "overlaps_aabb_tree")
+        if not q:
+            rep.unknown(rule, g.key + "|pair look-up", g.where, "the tree-against-tree query is not made in this method (delegated / restructured): payload pairing not decided here")
+            continue
         ok = len(q) == 1 and u(q[0].func.value) == "self.aabbtree_" and u(q[0].args[0]) == "%s.aabbtree_" % oparam
         rep.check(ok, rule, g.key + "|tree query self vs %s" % oparam, g.where, "expected self.aabbtree_.overlaps_aabb_tree(%s.aabbtree_)" % oparam)
         pairs_name = None
@@ -152,7 +164,7 @@ def r_payload(idx, rep, rule="R-PAYLOAD"):
 def r_whitelist(idx, rep, rule="R-WHITELIST"):
     rep.rule(rule, "self-collision detection: every collider queries the BVH, candidates are filtered only by the querying "
                    "frame's whitelist, the narrow phase runs on every remaining candidate; detect marks both frames, detect_any "
-                   "returns True on the first hit and False after all", floor=8)
+                   "returns True on the first hit and False after all", floor=2, unknown_ceiling=2)
     for name in ("detect", "detect_any"):
         f = idx.func(SC + "::" + name)
         bvh = f.params()[0]
@@ -163,6 +175,9 @@ def r_whitelist(idx, rep, rule="R-WHITELIST"):
             continue
         fr, co = [u(e) for e in outer[0].target.elts]
         q = calls(outer[0].body, "aabb_overlapping_colliders")
+        if not q:
+            rep.unknown(rule, f.key + "|candidate loop", f.where, "the BVH query is not made inside the collider loop (delegated to a helper / restructured): whitelist and narrow-phase discipline not decided here")
+            continue
         good = len(q) == 1 and u(q[0].args[0]) == co and any(k.arg == "whitelist" and u(k.value) == "%s.self_collision_whitelists_[%s]" % (bvh, fr) for k in q[0].keywords)
         rep.check(good, rule, f.key + "|candidates = BVH query with the querying frame's whitelist", f.where,
                   "candidates must be bvh.aabb_overlapping_colliders(collider, whitelist=bvh.self_collision_whitelists_[frame])")
